@@ -4,6 +4,7 @@ import (
 	"context"
 	"fmt"
 	"net"
+	"os"
 	"strings"
 	"sync"
 	"time"
@@ -11,6 +12,7 @@ import (
 	"github.com/cloudwego/hertz/pkg/app"
 	"github.com/cloudwego/hertz/pkg/app/server"
 	"github.com/cloudwego/hertz/pkg/common/config"
+	"github.com/cloudwego/hertz/pkg/common/verifhook"
 	"github.com/cloudwego/hertz/pkg/network"
 	"github.com/cloudwego/hertz/pkg/network/standard"
 	"github.com/cloudwego/hertz/pkg/route"
@@ -107,9 +109,15 @@ func RunC18(ep *core.Episode) {
 			S.Yield("handler-after-sleep") // sleepers wake at the same instant: serialise them again
 		}
 		hmu.Lock()
+		called := shutdownCalled
+		hmu.Unlock()
+		// "after shutdown began": a Shutdown call has been made and the engine has left the running state (between the
+		// call and the flip of the status nothing distinguishes the two orders)
+		after := called && !eng.IsRunning()
+		hmu.Lock()
 		running--
 		hs.returned = true
-		hs.afterShutdown = shutdownCalled
+		hs.afterShutdown = after
 		hmu.Unlock()
 		ctx.SetStatusCode(200)
 		ctx.Response.SetBodyString("done " + name)
@@ -120,7 +128,28 @@ func RunC18(ep *core.Episode) {
 		}
 	})
 	// hooks
-	nhooks := tp.Choose("nhooks", 4)
+	// 4..7: as 0..3 hooks, and the statement-level yields the driver inserts into the standard transport are honoured
+	// while the server starts up (until its accept loop waits for the first connection): Run against an early Shutdown.
+	// Afterwards the oracles' notion of "the instant Shutdown was called" needs the call to be one step.
+	nhk := tp.Choose("nhooks", 8)
+	nhooks := nhk % 4
+	if nhk >= 4 && os.Getenv("VSIM_AST_OFF") == "" {
+		startedUp := false
+		verifhook.OnYield = func(site string, obj interface{}) {
+			if !strings.HasPrefix(site, "ast") {
+				return
+			}
+			if !startedUp && ln.HasAcceptor() {
+				startedUp = true
+			}
+			// a lock wait is always a scheduling point: the holder may still be parked at an earlier yield
+			if site == "ast-lock" || (!startedUp && S.Known()) {
+				ep.ProbeN("inserted-yield-taken", 1)
+				S.Yield(site)
+			}
+		}
+		ep.OnCleanup(func() { verifhook.OnYield = nil })
+	}
 	hookCalls := make([]int, nhooks)
 	hookDone := make([]int, nhooks)       // hooks that ran to their end
 	hookCancelled := make([]bool, nhooks) // the hook's context was cancelled while it ran
@@ -243,6 +272,7 @@ func RunC18(ep *core.Episode) {
 	var shutErr, shutErr2 error
 	var shutDur time.Duration
 	shutReturned := false
+	nilReturned := false // a Shutdown call of a running engine has returned nil: the shutdown is complete
 	secondStartedAfter := false
 	_ = secondStartedAfter
 	activeAtShutdown := 0
@@ -335,7 +365,9 @@ func RunC18(ep *core.Episode) {
 		hookCancelledAtReturn = append([]bool(nil), hookCancelled...)
 		hmu.Unlock()
 		// returning nil before the wait expired claims that every accepted connection is finished
-		if shutErr == nil && firstWasRunning && shutDur < exitWait {
+		// (with Spin and a second call racing it, which of the two shut the engine down is only known at the end)
+		spinRace := spin && second && secondWasRunning
+		if shutErr == nil && firstWasRunning && shutDur < exitWait && !spinRace {
 			for _, ac := range ln.AcceptedConns {
 				if !ac.IsClosed() && !ac.Peer.IsClosed() {
 					stillOpen = append(stillOpen, ac.Name)
@@ -344,6 +376,9 @@ func RunC18(ep *core.Episode) {
 		}
 		S.Yield("after-shutdown")
 		shutReturned = true
+		if shutErr == nil && firstWasRunning && !spinRace {
+			nilReturned = true
+		}
 		ep.Logf("  shutdown returned %v after %v", shutErr, shutDur)
 		ep.Sig("shutdown-returned")
 	})
@@ -360,6 +395,9 @@ func RunC18(ep *core.Episode) {
 			hmu.Unlock()
 			shutErr2 = eng.Shutdown(context.Background())
 			S.Yield("after-shutdown2")
+			if shutErr2 == nil && secondWasRunning {
+				nilReturned = true
+			}
 			ep.Logf("  second shutdown (engine running at call: %v) returned %v", secondWasRunning, shutErr2)
 		})
 		ep.Probe("second-shutdown")
@@ -424,7 +462,7 @@ func RunC18(ep *core.Episode) {
 			add(core.Event{Key: fmt.Sprintf("late-dial %d", lateDials), Weight: 2, Apply: func() {
 				i := 100 + lateDials
 				lateDials++
-				afterReturn := shutReturned
+				afterReturn := shutReturned && nilReturned
 				c := dialClient(i)
 				if afterReturn {
 					ep.Probe("dial-after-shutdown")
@@ -494,6 +532,10 @@ func RunC18(ep *core.Episode) {
 	}
 
 	// ---- oracles ----
+	if spin && second && secondWasRunning && shutErr2 == nil {
+		// the other call shut the engine down: Spin's own call failed at once, which Spin only logs
+		shutErr = fmt.Errorf("not observable: Spin logs what Shutdown returns")
+	}
 	if !runReturned {
 		ep.Fail("C18.run-returns", "Run did not return")
 		return
@@ -510,13 +552,21 @@ func RunC18(ep *core.Episode) {
 			ep.Fail("C18.second", "a Shutdown call made while the engine was not running (not started yet or already shutting down) returned nil")
 			return
 		}
-		if firstWasRunning && shutErr != nil {
-			ep.Fail("C18.bound", "Shutdown of a running engine returned error %v", shutErr)
-			return
-		}
-		if second && secondWasRunning && shutErr2 != nil {
-			ep.Fail("C18.bound", "Shutdown of a running engine returned error %v", shutErr2)
-			return
+		if firstWasRunning && second && secondWasRunning && !spin {
+			// both calls found the engine running: one of them does the shutdown, the other one is told that it did not
+			if (shutErr == nil) == (shutErr2 == nil) {
+				ep.Fail("C18.second", "two Shutdown calls that both found the engine running returned %v and %v: exactly one of them can have shut it down", shutErr, shutErr2)
+				return
+			}
+		} else {
+			if firstWasRunning && shutErr != nil && !spin {
+				ep.Fail("C18.bound", "Shutdown of a running engine returned error %v", shutErr)
+				return
+			}
+			if second && secondWasRunning && shutErr2 != nil && !firstWasRunning {
+				ep.Fail("C18.bound", "Shutdown of a running engine returned error %v", shutErr2)
+				return
+			}
 		}
 	}
 	if len(stillOpen) > 0 {
